@@ -182,7 +182,7 @@ def m_table():
                 ("c07_parallel_closure", m_run.c07_parallel_closure), ("c07_nuts_hidden_randomness", m_nuts.c07_nuts_hidden_randomness),
                 ("c08_mh_streams", m_mh.c08_mh_streams)],
         "C04": [("c04_adaptation", m_nuts.c04_adaptation)],
-        "C03": [("c03_build_tree", m_nuts.c03_build_tree), ("c03_step", m_nuts.c03_step)],
+        "C03": [("c03_build_tree", m_nuts.c03_build_tree), ("c03_step", m_nuts.c03_step), ("c03_loop_condition", m_nuts.c03_loop_condition)],
         "C14": [("c14_hmc", m_hmc.c14_hmc), ("c14_nuts", m_nuts.c14_nuts)],
         "C15": [("c15_isotropic", m_dist.c15_isotropic), ("c15_gaussian2d", m_dist.c15_gaussian2d),
                 ("c15_tensor_targets", m_dist.c15_tensor_targets)],
